@@ -102,7 +102,9 @@ func NewReverseSuffixSearcher(
 	suffixLen := len(suffixBytes)
 
 	// Build prefilter from suffix literals
-	builder := prefilter.NewBuilder(nil, suffixLiterals)
+	// Candidates are occurrences of the common suffix (suffixLen is its length),
+	// so the prefilter must search for exactly that literal, not for the whole set.
+	builder := prefilter.NewBuilder(nil, literal.NewSeq(literal.NewLiteral(suffixBytes, false)))
 	pre := builder.Build()
 	if pre == nil {
 		// No prefilter available - cannot use this optimization
@@ -190,16 +192,9 @@ func (s *ReverseSuffixSearcher) Find(haystack []byte) *Match {
 	// For matchStartZero (unanchored .* prefix), match starts at the beginning
 	// of the line containing the LAST suffix — .* (AnyCharNotNL) cannot cross \n.
 	if s.matchStartZero {
-		lastPos := bytes.LastIndex(haystack, s.suffixBytes)
-		if lastPos == -1 {
-			return nil
-		}
-		revEnd := lastPos + s.suffixLen
-		if revEnd > len(haystack) {
-			revEnd = len(haystack)
-		}
-		matchStart := lineStartBefore(haystack, 0, lastPos)
-		return NewMatch(matchStart, revEnd, haystack)
+		// Leftmost match: the FIRST line that contains the suffix, up to the
+		// last occurrence on that line (FindAt implements exactly this).
+		return s.FindAt(haystack, 0)
 	}
 
 	// For bounded wildcards (e.g., \d+\.\d+\.35), find the FIRST suffix
